@@ -40,63 +40,57 @@ func (i *index) Clear() {
 	i.refs = map[string]string{}
 }
 
-func (i *index) putData(key string, item map[string]*types.Item) error {
-	indexKey, err := i.keySchema.GetKey(i.Table.AttributesDef, item)
-	if err != nil || indexKey == "" {
-		return err
+// removeRef drops the entry of the item stored under key, if there is one.
+func (i *index) removeRef(key string) {
+	old, ok := i.refs[key]
+	if !ok {
+		return
 	}
 
-	_, exists := i.refs[key]
+	delete(i.refs, key)
+
+	pos := sort.SearchStrings(i.sortedKeys, old)
+	if pos < len(i.sortedKeys) && i.sortedKeys[pos] == old {
+		i.sortedKeys = append(i.sortedKeys[:pos], i.sortedKeys[pos+1:]...)
+	}
+}
+
+// setRef makes indexKey the only entry of the item stored under key.
+func (i *index) setRef(key, indexKey string) {
+	i.removeRef(key)
 
 	i.refs[key] = indexKey
 
-	if !exists {
-		i.sortedKeys = append(i.sortedKeys, indexKey)
-		sort.Strings(i.sortedKeys)
+	pos := sort.SearchStrings(i.sortedKeys, indexKey)
+	i.sortedKeys = append(i.sortedKeys, "")
+	copy(i.sortedKeys[pos+1:], i.sortedKeys[pos:])
+	i.sortedKeys[pos] = indexKey
+}
+
+func (i *index) putData(key string, item map[string]*types.Item) error {
+	indexKey, err := i.keySchema.GetKey(i.Table.AttributesDef, item)
+	if err != nil {
+		return err
 	}
+
+	if indexKey == "" {
+		// secondary indexes are sparse: the item has no index key (any more)
+		i.removeRef(key)
+
+		return nil
+	}
+
+	i.setRef(key, indexKey)
 
 	return nil
 }
 
 func (i *index) updateData(key string, item, oldItem map[string]*types.Item) error {
-	indexKey, err := i.keySchema.GetKey(i.Table.AttributesDef, item)
-	if err != nil || indexKey == "" {
-		return err
-	}
-
-	old := i.refs[key]
-	i.refs[key] = indexKey
-
-	if old != indexKey {
-		pos := sort.SearchStrings(i.sortedKeys, old)
-		if pos >= len(i.sortedKeys) {
-			i.sortedKeys = append(i.sortedKeys, indexKey)
-		} else {
-			i.sortedKeys[pos] = indexKey
-		}
-
-		sort.Strings(i.sortedKeys)
-	}
-
-	return nil
+	return i.putData(key, item)
 }
 
 func (i *index) delete(key string, item map[string]*types.Item) error {
-	delete(i.refs, key)
-
-	indexKey, err := i.keySchema.GetKey(i.Table.AttributesDef, item)
-	if err != nil || indexKey == "" {
-		return err
-	}
-
-	pos := sort.SearchStrings(i.sortedKeys, indexKey)
-	if pos == len(i.sortedKeys) {
-		return err
-	}
-
-	copy(i.sortedKeys[pos:], i.sortedKeys[pos+1:])
-	i.sortedKeys[len(i.sortedKeys)-1] = ""
-	i.sortedKeys = i.sortedKeys[:len(i.sortedKeys)-1]
+	i.removeRef(key)
 
 	return nil
 }
